@@ -23,13 +23,17 @@
 (*                  "T" | "F" (value of `remote`) | "unset" (no such argument arrived)    *)
 (*      obs.equal_to_pickle  "T" | "F" | "na":  round trip result structurally equal to   *)
 (*                  pickle.loads(pickle.dumps(x, proto)), or both raise                   *)
-(*  "leaf"  a standard-library value (scn.kind, scn.item) bare or wrapped (scn.wrap)      *)
+(*  "leaf"  a standard-library value (scn.kind, scn.item) bare or wrapped (scn.wrap);     *)
+(*      scn.after = "fail": on a thread whose previous remote_pickle.loads raised         *)
 (*      obs.outcome, obs.equal_to_pickle as above                                         *)
 (*  "graph" an object graph                                                               *)
 (*      scn.g[i]    node i (numbered in the order pickle reaches them from node 1):       *)
 (*                  kind "opt" (opt-in instance) | "plain" (instance) | "cont" (list /    *)
 (*                  tuple / dict), ent = <<[k |-> key, to |-> node]>> in state order,     *)
-(*                  ss (class defines __setstate__), ds (state is a dict)                 *)
+(*                  ss (class defines __setstate__), ds (state is a dict), fs ("no", or   *)
+(*                  the falsy state __getstate__ returns: "d0" {} | "i0" 0 | "t0" () |    *)
+(*                  "s0" '' | "b0" False - standard unpickling calls __setstate__ for     *)
+(*                  every state that is not None)                                         *)
 (*      scn.tp[i]   the node through which pickle reaches i first (0 for node 1)          *)
 (*      scn.loads   <<[patch |-> <<path>>, fail, at, thr]>>: the loads() calls; a patch   *)
 (*                  dictionary is given by its leaf paths: <<"k2","w">> = {k2: {w: X}}    *)
@@ -42,6 +46,8 @@
 (*                  nodes[i]["#"] = kind or "unreached"; ss[i] = number of calls of the   *)
 (*                  user's __setstate__ for node i                                        *)
 (*      obs.fresh[k] the same loads() call executed on a fresh thread                     *)
+(*      obs.equal_to_pickle compares the LAST loads() call (no patches, no injected       *)
+(*                  failure; earlier calls of the sequence may have failed) with pickle   *)
 EXTENDS Naturals, Sequences, FiniteSets
 
 Rng(s) == {s[j] : j \in 1..Len(s)}
@@ -94,14 +100,17 @@ EntTo(nd, k) == nd.ent[CHOOSE j \in 1..Len(nd.ent) : nd.ent[j].k = k].to
 \* what standard unpickling of the state taken with the given flag restores
 BaseEnt(scn, i, via) ==
   LET nd == scn.g[i]
+      \* an opt-in instance whose __getstate__ returns a falsy (but not None) state keeps its attributes
+      \* through __getnewargs__; its __setstate__ records which state it received ("got")
       ks == {"#", "val"} \cup (IF nd.kind = "cont" THEN {} ELSE {"w"})
-            \cup (IF nd.kind = "opt" THEN {"via"} \cup (IF nd.ss THEN {"sset"} ELSE {}) ELSE {})
+            \cup (IF nd.kind = "opt" THEN (IF nd.fs = "no" THEN {"via"} ELSE {"got"}) \cup (IF nd.ss THEN {"sset"} ELSE {}) ELSE {})
             \cup EntKeys(nd)
   IN [k \in ks |-> CASE k = "#" -> nd.kind
                      [] k = "val" -> "s:v" \o NatStr(i)
                      [] k = "w" -> "s:w" \o NatStr(i)
                      [] k = "via" -> "s:" \o via
                      [] k = "sset" -> "s:T"
+                     [] k = "got" -> "s:" \o nd.fs
                      [] OTHER -> "n:" \o NatStr(EntTo(nd, k))]
 \* AbsPatch: the entries of node i after loads(.., P)
 PatchedEnt(scn, P, i, via) ==
